@@ -284,6 +284,30 @@ func c13Stress(tier string, seed uint64, out string) {
 		writeJSON(filepath.Join(out, "summary.json"), sum)
 	}
 	start := time.Now()
+	// cold start: the very first queries of this process run concurrently, each calling functions (built-in, and an
+	// immediate one registered just before) — lazily built package-level tables must not be built by two queries at once
+	{
+		genql.RegisterImmediateFunction("c13cold", func(_ *genql.Query, _ genql.Map, _ *genql.FunctionOptions, args []any) (any, error) {
+			return float64(len(args)), nil
+		})
+		base := c13Doc(r, "cold")
+		var wg sync.WaitGroup
+		gate := make(chan struct{})
+		colds := []string{"SELECT to_upper(name) AS r, c13cold(id) AS k FROM users", "SELECT concat(name, '-', id) AS r FROM users WHERE to_lower(city) LIKE 'o%'",
+			"SELECT c13cold(id, age) AS k FROM users", "SELECT id FROM users WHERE to_upper(name) LIKE 'A%'"}
+		for g := 0; g < 16; g++ {
+			wg.Add(1)
+			d := deepCopy(base).(map[string]any)
+			go func(g int) {
+				defer wg.Done()
+				<-gate
+				c13Run(c13Job{Kind: "query", Text: colds[g%len(colds)], Tag: "cold-start"}, d)
+			}(g)
+		}
+		close(gate)
+		wg.Wait()
+		sum.Kinds["cold-start"] += 16
+	}
 	gs := []int{2, 3, 4, 8, 16, 32}
 	for round := 0; time.Since(start).Seconds() < secs; round++ {
 		G := gs[round%len(gs)]
